@@ -28,7 +28,7 @@ SIGNUMS = {"SIGINT": 2, "SIGTERM": 15, "SIGCHLD": 17}
 
 
 class SpinnerDomain(DeferredDomain):
-    def __init__(self, classes, script, leftovers=True, missing_signals=(), **kw):
+    def __init__(self, classes, script, leftovers=True, missing_signals=(), default_handlers=(), **kw):
         lacks = {("signal", n) for n in missing_signals}
         attrs = {"self": ("self",), "self._reactor": REACTOR, "signal": SIGNAL}
         for n, num in SIGNUMS.items():
@@ -37,6 +37,7 @@ class SpinnerDomain(DeferredDomain):
         super().__init__(classes, attrs=attrs, lacks=lacks, ctors={"TimeoutError", "StaleJunkError", "DebugTwisted", "Fixture"}, oracle=self._oracle, log_cap=60, **kw)
         self.script = script
         self.leftovers = leftovers
+        self.default_handlers = {("const", SIGNUMS[n_]) for n_ in default_handlers}   # signals whose current handler is SIG_DFL (== 0, falsy)
         self.oracle_state = True
 
     def _oracle(self, n, pos, kw, st):
@@ -51,6 +52,8 @@ class SpinnerDomain(DeferredDomain):
             done = st.get("ev.timeout_ran", False) or any(e[0] == "dc.cancel" and e[3] == "ok" for e in st.get("ev.calls", ()))
             return [("val", FALSE if done else TRUE)]
         if n == "signal.getsignal":
+            if pos and pos[0] in self.default_handlers:
+                return [("val", ("const", 0))]   # signal.SIG_DFL
             return [("val", ("handler-of", pos[0] if pos else None))]
         if n == "signal.signal":
             return [("val", NONE)]
@@ -198,7 +201,7 @@ def initial_state(stale=True, junk=()):
     return State(items)
 
 
-def run_spinner(ctx, kind, script, debug=False, stale=True, junk=(), leftovers=True, missing_signals=()):
+def run_spinner(ctx, kind, script, debug=False, stale=True, junk=(), leftovers=True, missing_signals=(), default_handlers=()):
     cls = spinner_class(ctx)
     owner, f = ctx.classes.resolve_method(cls, "run")
     if not isinstance(f, FUNC_TYPES):
@@ -209,7 +212,7 @@ def run_spinner(ctx, kind, script, debug=False, stale=True, junk=(), leftovers=T
         if v is None:
             raise AnalysisError(f"anchor vanished: Spinner.{name} is not a literal")
         attrs["self." + name] = v
-    dom = SpinnerDomain(ctx.classes, script, leftovers=leftovers, missing_signals=missing_signals, attrs=attrs)
+    dom = SpinnerDomain(ctx.classes, script, leftovers=leftovers, missing_signals=missing_signals, default_handlers=default_handlers, attrs=attrs)
     params = [a.arg for a in f.args.args[1:]]
     argv = {params[0]: TIMEOUT, params[1]: userfn(kind)}
     if f.args.vararg is not None:
